@@ -351,8 +351,11 @@ class GraphInit(Unit):
         s_eps, s_step = z3.Int("starting_eps"), z3.Int("starting_step")
         ex.summaries["tree_take"] = lambda ex_, o, a, k, n: ("timings_of_episode", a[1])
         pre = ctx.snapshot(g)
-        gs = ctx.call(self_obj=g, kwargs=dict(rng=rng, params=dict(given), starting_step=s_step, starting_eps=s_eps))
+        p_arg = dict(given)          # the caller's override dict (a plain dict, as rex.rl.Environment keeps and re-uses one)
+        gs = ctx.call(self_obj=g, kwargs=dict(rng=rng, params=p_arg, starting_step=s_step, starting_eps=s_eps))
         aw.frame_check(ctx, aw.reachable(pre), aw.reachable(g), [], label="C09 purity: the graph object is not modified")
+        ctx.ensure("C09 purity: the caller's params override is not modified (a second init with the same dict and another rng must not see this call's draws)",
+                   z3.BoolVal(set(p_arg) == set(given) and all(p_arg[k] is given[k] for k in given)))
         clip = lambda x, hi: z3.If(x < 0, 0, z3.If(x > hi - 1, hi - 1, x))
         ctx.ensure("C09 the starting episode and step are what the steps see, clipped (not wrapped) into range; the episode's timings are taken at the clipped episode",
                    z3.And(toz(gs.f["eps"]) == clip(s_eps, E), toz(gs.f["step"]) == clip(s_step, P), z3.BoolVal(isinstance(gs.f["timings_eps"], tuple)), toz(gs.f["timings_eps"][1]) == clip(s_eps, E)))
@@ -570,3 +573,25 @@ class BufferAdmission(Unit):
 
 
 UNITS += [BufferAdmission()]
+
+
+class TreeTake(Unit):
+    """rex.jax_utils.tree_take (summarised as 'the i-th slice of every leaf' where Graph.init / replace_eps / run_supervisor use it): leaf by leaf x[i], structure kept"""
+    name = "tree_take"
+    target = "rex/jax_utils.py::tree_take"
+    props = ("C09", "C01", "C13")
+
+    def run(self, ctx):
+        n, i = z3.Int("n"), z3.Int("i")
+        ctx.require(z3.And(n >= 1, 0 <= i, i < n))
+        a, c = Arr.fresh("leaf.a", REAL, n), Arr.fresh("leaf.c", INT, n)
+        tree = {"a": a, "sub": {"c": c, "none": None}}
+        ret = ctx.call(args=[tree, i])
+        ok = isinstance(ret, dict) and set(ret) == {"a", "sub"} and isinstance(ret["sub"], dict) and set(ret["sub"]) == {"c", "none"} and ret["sub"]["none"] is None
+        ctx.ensure("the result has the structure of the tree", z3.BoolVal(ok))
+        if ok:
+            ctx.ensure("C09/C01 every leaf of the result is the i-th entry of the corresponding leaf (no other index, no other leaf)",
+                       z3.And(toz(ret["a"]) == z3.Select(a.a, i), toz(ret["sub"]["c"]) == z3.Select(c.a, i)))
+
+
+UNITS += [TreeTake()]
